@@ -228,10 +228,11 @@ end
 /-- inside C08's proved region, and total -/
 def guard (E : EvalOps N) (e : Expr) : Bool := C08.h8 E e && tot E e
 
-/-- `c08Api N E` restricted to `guard`: outside, nothing is known and everything may have side effects -/
+/-- `c08Api N E` restricted to `guard`: outside, nothing is known and everything may have side effects. Numbers are
+not folded (`to_expression` of a number needs round-trip laws of the number system that `C08.Agree` does not give). -/
 def gApi (N : NumOps) (E : EvalOps N) : EvalApi where
   kind e := if guard E e then (c08Api N E).kind e else .unknown
-  toExpr e := if guard E e then (c08Api N E).toExpr e else none
+  toExpr e := if guard E e && !isNum (evaluate E e) then (c08Api N E).toExpr e else none
   hasSideEffects e := !guard E e || (c08Api N E).hasSideEffects e
   canReturnMultiple := (c08Api N E).canReturnMultiple
 
